@@ -57,9 +57,12 @@ func (c *dynamicCollector) Add(in interface{}) error {
 
 	if c.hash == "" {
 		docHash, num := metricKeyHash(doc)
+		if err := c.chunks[0].Add(doc); err != nil {
+			return errors.WithStack(err)
+		}
 		c.hash = docHash
 		c.currentNum = num
-		return errors.WithStack(c.chunks[0].Add(doc))
+		return nil
 	}
 
 	lastChunk := c.chunks[len(c.chunks)-1]
@@ -70,10 +73,13 @@ func (c *dynamicCollector) Add(in interface{}) error {
 	}
 
 	chunk := newBatchCollector(c.maxSamples)
+	if err := chunk.Add(doc); err != nil {
+		return errors.WithStack(err)
+	}
 	c.chunks = append(c.chunks, chunk)
 	c.hash = docHash
 
-	return errors.WithStack(chunk.Add(doc))
+	return nil
 }
 
 func (c *dynamicCollector) Resolve() ([]byte, error) {
